@@ -122,6 +122,9 @@ def staminaEval (o : TObj R) : R :=
 def staminaMultiplier : R := 1.1
 def staminaDecayBase : R := 0.4
 
+/-- `monolength_bonus = 1.0 + f64::min(f64::max((index - 5) as f64 / 50.0, 0.0), 0.30)` -/
+def monolengthBonus (index : Int) : R := 1.0 + fmin (fmax (ofInt (index - 5) / 50.0) 0.0) 0.30
+
 /-- `Stamina::strain_value_at`; the state is `current_strain` -/
 def staminaValueAt (singleColor isConvert : Bool) (cur : R) (o : TObj R) : R × R :=
   let cur := cur * strainDecay o.data.deltaTime staminaDecayBase
@@ -130,7 +133,7 @@ def staminaValueAt (singleColor isConvert : Bool) (cur : R) (o : TObj R) : R × 
   let v :=
     if singleColor then logisticExp (ofInt (-(index - 10)) / 2.0) cur
     else if isConvert then cur
-    else cur * (1.0 + fmin (fmax (ofInt (index - 5) / 50.0) 0.0) 0.30)
+    else cur * monolengthBonus index
   (cur, v)
 
 /-- `Stamina::calculate_initial_strain` -/
@@ -164,22 +167,32 @@ def decayFns {σ : Type} (mult base : R) (valueOf : σ → TObj R → Option (σ
 
 /-! ## reading -/
 
-/-- `ReadingEvaluator::evaluate_diff_of` -/
-def readingEval (o : TObj R) : R :=
-  let highCenter : R := (640.0 + 480.0) / 2.0
-  let highRange : R := 640.0 - 480.0
+/-- `effective_bpm = f64::max(1.0, note_object.effective_bpm)` -/
+def cappedBpm (o : TObj R) : R := fmax 1.0 o.data.effectiveBpm
+
+/-- `mid_velocity_diff` (`VelocityRange::new(360.0, 480.0)`: centre `(max + min) / 2.0`, range `max - min`) -/
+def midVelocityDiff (o : TObj R) : R :=
   let midCenter : R := (480.0 + 360.0) / 2.0
   let midRange : R := 480.0 - 360.0
-  let effectiveBpm := fmax 1.0 o.data.effectiveBpm
-  let midVelocityDiff := 0.5 * logistic effectiveBpm midCenter (1.0 / (midRange / 10.0)) 1.0
-  let expectedDeltaTime := 21000.0 / effectiveBpm
+  0.5 * logistic (cappedBpm o) midCenter (1.0 / (midRange / 10.0)) 1.0
+
+/-- `density_penalty = logistic(expected_delta_time / max(1.0, delta_time), 0.925, 15.0, None)` -/
+def densityPenalty (o : TObj R) : R :=
+  let expectedDeltaTime := 21000.0 / cappedBpm o
   let objectDensity := expectedDeltaTime / fmax 1.0 o.data.deltaTime
-  let densityPenalty := logistic objectDensity 0.925 15.0 1.0
-  let highVelocityDiff :=
-    (1.0 - 0.33 * densityPenalty)
-      * logistic effectiveBpm (highCenter + 8.0 * densityPenalty)
-          ((1.0 + 0.5 * densityPenalty) / (highRange / 10.0)) 1.0
-  midVelocityDiff + highVelocityDiff
+  logistic objectDensity 0.925 15.0 1.0
+
+/-- `high_velocity_diff` (`VelocityRange::new(480.0, 640.0)`) -/
+def highVelocityDiff (o : TObj R) : R :=
+  let highCenter : R := (640.0 + 480.0) / 2.0
+  let highRange : R := 640.0 - 480.0
+  let densityPenalty := densityPenalty o
+  (1.0 - 0.33 * densityPenalty)
+    * logistic (cappedBpm o) (highCenter + 8.0 * densityPenalty)
+        ((1.0 + 0.5 * densityPenalty) / (highRange / 10.0)) 1.0
+
+/-- `ReadingEvaluator::evaluate_diff_of` -/
+def readingEval (o : TObj R) : R := midVelocityDiff o + highVelocityDiff o
 
 /-- `Reading::strain_value_of`; the state is the skill's own `current_strain` -/
 def readingValueOf (cur : R) (o : TObj R) : Option (R × R) :=
@@ -195,23 +208,41 @@ def readingFns : FnsV R (TRec R) (R × R) := decayFns 1.0 0.4 readingValueOf
 
 /-! ## colour -/
 
+/-- the argument `E * idx as f64 - 2.0 * E` of the three pattern logistics -/
+def patternArg (i : Nat) : R := constE * ofInt i - 2.0 * constE
+
 /-- `eval_repeating_hit_patterns_diff` -/
-def evalRep (interval : Nat) : R :=
-  2.0 * (1.0 - logisticExp (constE * ofInt interval - 2.0 * constE) 1.0)
+def evalRep (interval : Nat) : R := 2.0 * (1.0 - logisticExp (patternArg interval) 1.0)
+
+/-- `parent.map_or(1.0, eval_repeating_hit_patterns_diff)` -/
+def altParentEval (p : Option Nat) : R :=
+  match p with
+  | some i => evalRep i
+  | none => 1.0
 
 /-- `eval_alternating_mono_pattern_diff` -/
-def evalAlt (a : Nat × Option Nat) : R :=
-  let parentEval : R := match a.2 with
-    | some i => evalRep i
-    | none => 1.0
-  logisticExp (constE * ofInt a.1 - 2.0 * constE) 1.0 * parentEval
+def evalAlt (a : Nat × Option Nat) : R := logisticExp (patternArg a.1) 1.0 * altParentEval a.2
+
+/-- `parent.map_or(1.0, eval_alternating_mono_pattern_diff)` -/
+def monoParentEval (p : Option (Nat × Option Nat)) : R :=
+  match p with
+  | some a => evalAlt a
+  | none => 1.0
 
 /-- `eval_mono_streak_diff` -/
 def evalMono (m : Nat × Option (Nat × Option Nat)) : R :=
-  let parentEval : R := match m.2 with
-    | some a => evalAlt a
-    | none => 1.0
-  logisticExp (constE * ofInt m.1 - 2.0 * constE) 1.0 * parentEval * 0.5
+  logisticExp (patternArg m.1) 1.0 * monoParentEval m.2 * 0.5
+
+/-- `if let Some(..) = .. { difficulty += term }` -/
+def addOpt (difficulty : R) (term : Option R) : R :=
+  match term with
+  | some v => difficulty + v
+  | none => difficulty
+
+/-- `difficulty` of `evaluate_difficulty_of` before the consistency penalty: the three
+`if … first_hit_object == hit_object { difficulty += … }` blocks in order -/
+def colorTerms (d : TRec R) : R :=
+  addOpt (addOpt (addOpt 0.0 (d.monoFirst.map evalMono)) (d.altFirst.map evalAlt)) (d.repFirst.map evalRep)
 
 /-- the loop of `consistent_ratio_penalty`: windows `[objects[k-2], _, objects[k]]` for
 `k = idx, idx - 2, …` while `k - 2 ≥ lo`; returns `total_ratio_count` and whether a consistent
@@ -236,19 +267,9 @@ def consistentRatioPenalty (ratios : List R) (idx : Nat) : Option R :=
 
 /-- `ColorEvaluator::evaluate_difficulty_of` -/
 def colorEval (ratios : List R) (o : TObj R) : Option R :=
-  let difficulty : R := 0.0
-  let difficulty := match o.data.monoFirst with
-    | some m => difficulty + evalMono m
-    | none => difficulty
-  let difficulty := match o.data.altFirst with
-    | some a => difficulty + evalAlt a
-    | none => difficulty
-  let difficulty := match o.data.repFirst with
-    | some i => difficulty + evalRep i
-    | none => difficulty
   match consistentRatioPenalty ratios o.idx with
   | none => none
-  | some penalty => some (difficulty * penalty)
+  | some penalty => some (colorTerms o.data * penalty)
 
 def colorFns (ratios : List R) : FnsV R (TRec R) (R × Unit) :=
   decayFns 0.12 0.8 fun _ o => (colorEval ratios o).map fun v => ((), v)
@@ -290,35 +311,52 @@ def repeatedIntervalPenalty (g : RhythmGroup R) (hitWindow : R) : R :=
     | some duration => fmax (1.0 - duration * 2.0 / hitWindow) 0.5
   fmin longIntervalPenalty shortIntervalPenalty * durationPenalty
 
+/-- `upgraded_previous().and_then(|h| h.hit_object_interval)` -/
+def prevInterval (g : RhythmGroup R) : Option R :=
+  match g.chain with
+  | _ :: p :: _ => p
+  | _ => none
+
+/-- the `if let Some(prev_interval) = prev_interval.filter(|_| len > 1) { if let Some(duration) … }` step -/
+def applyDurationDiff (g : RhythmGroup R) (hitWindow intervalDiff : R) : R :=
+  match (if g.len > 1 then prevInterval g else none), g.duration with
+  | some prev, some duration =>
+    let expected := prev * ofInt g.len
+    let durationDiff := duration - expected
+    if lt 0.0 durationDiff then intervalDiff * logistic (durationDiff / hitWindow) 0.7 1.0 1.0
+    else intervalDiff
+  | _, _ => intervalDiff
+
+/-- the `if let Some(duration) = duration { interval_diff *= logistic(duration / hit_window, 0.6, 1.0, Some(1.0)) }` step -/
+def applyDuration (g : RhythmGroup R) (hitWindow intervalDiff : R) : R :=
+  match g.duration with
+  | some duration => intervalDiff * logistic (duration / hitWindow) 0.6 1.0 1.0
+  | none => intervalDiff
+
 /-- `evaluate_diff_of_(group, hit_window)` -/
 def evaluateGroup (g : RhythmGroup R) (hitWindow : R) : R :=
   let intervalDiff := ratioDifficulty g.intervalRatio
-  let prevInterval : Option R := match g.chain with
-    | _ :: p :: _ => p
-    | _ => none
   let intervalDiff := intervalDiff * repeatedIntervalPenalty g hitWindow
-  let intervalDiff :=
-    match (if g.len > 1 then prevInterval else none), g.duration with
-    | some prev, some duration =>
-      let expected := prev * ofInt g.len
-      let durationDiff := duration - expected
-      if lt 0.0 durationDiff then intervalDiff * logistic (durationDiff / hitWindow) 0.7 1.0 1.0
-      else intervalDiff
-    | _, _ => intervalDiff
-  let intervalDiff := match g.duration with
-    | some duration => intervalDiff * logistic (duration / hitWindow) 0.6 1.0 1.0
-    | none => intervalDiff
+  let intervalDiff := applyDurationDiff g hitWindow intervalDiff
+  let intervalDiff := applyDuration g hitWindow intervalDiff
   powf intervalDiff 0.75
+
+/-- `(same_rhythm, interval_penalty)` after the first block of `evaluate_diff_of` -/
+def sameRhythmPart (o : TObj R) (hitWindow : R) : R × R :=
+  match o.data.rhythmFirst with
+  | some g => (0.0 + 10.0 * evaluateGroup g hitWindow, repeatedIntervalPenalty g hitWindow)
+  | none => (0.0, 0.0)
+
+/-- `same_pattern` after the second block -/
+def samePatternPart (o : TObj R) : R :=
+  match o.data.patternFirstRatio with
+  | some r => 0.0 + 1.15 * ratioDifficulty r
+  | none => 0.0
 
 /-- `RhythmEvaluator::evaluate_diff_of(hit_object, hit_window)` -/
 def rhythmEval (o : TObj R) (hitWindow : R) : R :=
-  let (sameRhythm, intervalPenalty) : R × R := match o.data.rhythmFirst with
-    | some g => (0.0 + 10.0 * evaluateGroup g hitWindow, repeatedIntervalPenalty g hitWindow)
-    | none => (0.0, 0.0)
-  let samePattern : R := match o.data.patternFirstRatio with
-    | some r => 0.0 + 1.15 * ratioDifficulty r
-    | none => 0.0
-  0.0 + fmax sameRhythm samePattern * intervalPenalty
+  let p := sameRhythmPart o hitWindow
+  0.0 + fmax p.1 (samePatternPart o) * p.2
 
 /-- `Rhythm::strain_value_of` -/
 def rhythmValueOf (hitWindow : R) (o : TObj R) : R :=
